@@ -81,6 +81,7 @@ type Trans struct {
 	reqOld           *State
 	pendingFinals    map[int]string
 	pendingMaintains []func(State) string
+	selfTerm         string
 	hdrOnce          sync.Once
 	hdr              string
 }
